@@ -59,8 +59,11 @@ def _frac_value(f):
     return symex.Enum(ite(has.t, 1, 0), {0: [], 1: [symex.Agg([d, ns])]}, "Option")
 
 
-def install_parser(io, r, variant_ok=True):
-    """environment: parsers::parse_ixdtf returns Ok(the record) (strings without annotations)"""
+def install_parser(io, r, short=None):
+    """environment: parsers::parse_ixdtf returns Ok(the record) (strings without annotations).
+    `short` = (form, month, day): form 1 = the string is of the short month-day form `[--]MM-DD` (only the MonthDay goal
+    parses it: record year 0, month 1..=12, day 1..=31 unvalidated), form 2 = a date / date-time string (only the
+    DateTime goal parses it: record `r`), form 0 = neither."""
     ex = io.s.ex
     ex.src.enums["UtcOffsetRecordOrZ"] = [("Offset", 0, 1), ("Z", 1, 0)]
     date = symex.Enum(1, {0: [], 1: [symex.Agg([r["y"], r["m"], r["d"]])]}, "Option")
@@ -72,8 +75,26 @@ def install_parser(io, r, variant_ok=True):
     none = symex.Enum(0, {0: [], 1: [symex.Opaque("annotation")]}, "Option")
     record = symex.Agg([date, time, offset, none, none])
 
+    err = symex.Agg([symex.Enum(2, {2: []}, "ErrorKind"), symex.Opaque("msg")])
+
     def parse_ixdtf(exx, st, callee, args):
-        return symex.Enum(0, {0: [record], 1: [symex.Agg([symex.Enum(2, {2: []}, "ErrorKind"), symex.Opaque("msg")])]}, "Result")
+        if short is None:
+            return symex.Enum(0, {0: [record], 1: [err]}, "Result")
+        form, sm, sd = short
+        variant = exx.deref(st, args[1])
+        if not is_c(variant.d):
+            raise symex.NotEncodable("symbolic ParseVariant")
+        if variant.d == 1:          # ParseVariant::MonthDay
+            sdate = symex.Enum(1, {0: [], 1: [symex.Agg([symex.Int(0, "i32"), sm, sd])]}, "Option")
+            # absent time / offset: well-typed (never read) payloads so that the record merges with the date-time record
+            z8 = lambda: symex.Int(0, "u8")
+            nofrac = symex.Enum(0, {0: [], 1: [symex.Agg([symex.Int(1, "u8"), symex.Int(0, "u32")])]}, "Option")
+            t0 = symex.Enum(0, {0: [], 1: [symex.Agg([z8(), z8(), z8(), nofrac])]}, "Option")
+            o0 = symex.Enum(0, {0: [], 1: [symex.Enum(1, {0: [orec], 1: []}, "UtcOffsetRecordOrZ")]}, "Option")
+            return symex.Enum(ite(eq(form.t, 1), 0, 1), {0: [symex.Agg([sdate, t0, o0, none, none])], 1: [err]}, "Result")
+        if variant.d == 2:          # ParseVariant::DateTime
+            return symex.Enum(ite(eq(form.t, 2), 0, 1), {0: [record], 1: [err]}, "Result")
+        return symex.Enum(1, {0: [record], 1: [err]}, "Result")
 
     def to_ns(exx, st, callee, args):
         f = exx.deref(st, args[0])
@@ -213,6 +234,8 @@ def _err_kind(res):
     e = res.v[1][0]
     while isinstance(e, symex.Agg):
         e = e.f[0]
+    if isinstance(e, symex.Opaque):
+        return 2 if e.tag == "err" else None       # `map_err(|e| TemporalError::range()...)` (models.py keeps no payload for map_err)
     return e.d if isinstance(e, symex.Enum) else e.t
 
 
@@ -305,6 +328,39 @@ def plain_date(io):
     io.obligations(L)
 
 
+def plain_month_day(io):
+    """PlainMonthDay::from_str (ISO calendar, no annotation): the short form `[--]MM-DD` or any date / date-time string
+    without a UTC designator; reference year 1972"""
+    r = record_inputs(io)
+    form = io.int("form", "u8", 0, 2)
+    sm = io.int("short_month", "u8", 1, 12)
+    sd = io.int("short_day", "u8", 1, 31)
+    if io.kind != "sym":
+        res = io.call(None, [], native=("record_plain_month_day", ("result", ("agg", ["i32", "u8", "u8"])), [form, sm, sd] + native_args(r)))
+    else:
+        install_parser(io, r, short=(form, sm, sd))
+        res = io.call(("PlainMonthDay", "FromStr", "from_str"), [io.ref(symex.Opaque("str"))], native=None)
+    digits_ok = not_(and_(r["has_time"].t, _too_many_digits(r["tf"])))
+    want_ok = ite(eq(form.t, 1), le(sd.t, R.dim(1972, sm.t)), ite(eq(form.t, 2), and_(ne(r["kind"].t, 2), digits_ok), False))
+    wm = ite(eq(form.t, 1), sm.t, r["m"].t)
+    wd = ite(eq(form.t, 1), sd.t, r["d"].t)
+    got_ok = eq(res.d, 0)
+    L = "C12.record.plain_month_day"
+    io.witness(L + ".reach")
+    io.witness(L + ".accepted_short_form", and_(got_ok, eq(form.t, 1)))
+    io.prove(L + ".rejects_what_no_goal_parses", not_(got_ok), hyp=eq(form.t, 0))
+    io.prove(L + ".rejects_utc_designator", not_(got_ok), hyp=and_(eq(form.t, 2), eq(r["kind"].t, 2)))
+    io.prove(L + ".short_form_accepted_iff_day_exists", and_(implies(got_ok, want_ok), implies(want_ok, got_ok)), hyp=eq(form.t, 1))
+    io.prove(L + ".accepts_date_and_date_time_strings", and_(implies(got_ok, want_ok), implies(want_ok, got_ok)), hyp=and_(eq(form.t, 2), digits_ok))
+    io.prove(L + ".rejects_more_than_nine_fraction_digits", not_(got_ok), hyp=and_(eq(form.t, 2), not_(digits_ok)))
+    if 0 in res.v:
+        date = res.v[0][0].f[0]
+        io.prove(L + ".value_is_written_month_day_in_1972", and_(eq(date.f[0].t, 1972), eq(date.f[1].t, wm), eq(date.f[2].t, wd)), hyp=and_(got_ok, want_ok))
+    if 1 in res.v:
+        io.prove(L + ".error_is_range_error", eq(_err_kind(res), 2), hyp=not_(got_ok))
+    io.obligations(L)
+
+
 def jobs(tier, seed):
     return [
         ("lemma_balance[years +-1000001]", lemma_balance, {}, {"timeout": 600}),
@@ -314,4 +370,5 @@ def jobs(tier, seed):
         ("record_plain_time", plain_time, {}, {"timeout": 300}),
         ("record_plain_date_time", plain_date_time, {}, {"timeout": 600}),
         ("record_plain_date", plain_date, {}, {"timeout": 600}),
+        ("record_plain_month_day", plain_month_day, {}, {"timeout": 600}),
     ]
